@@ -589,6 +589,13 @@ func (o *FilterOptimizer) unionPrefix(l, r *ScanType) *ScanType {
 }
 
 func inRange(start, end, val []byte, isEnd bool) bool {
+	// A nil val is an open bound: +inf when it is an end, -inf when it is a start
+	if val == nil {
+		if isEnd {
+			return end == nil
+		}
+		return start == nil
+	}
 	if start == nil && end != nil {
 		if val == nil && !isEnd {
 			return true
